@@ -132,8 +132,15 @@ def generate(ctx):
                     case['fill'] = rng.choice([np.nan, None, 0, 'fv'])
             elif iface == 'assign_bloc':
                 case['mask'] = [[rng.random() < 0.4 for _ in range(nc)] for _ in range(nr)]
+                if rng.random() < 0.3 and nc:
+                    # nothing addressed in some leading / trailing columns
+                    for row in case['mask']:
+                        for j in range(rng.randint(1, nc)):
+                            row[j if rng.random() < 0.5 else nc - 1 - j] = False
                 case['v'] = _val(rng)
                 case['mask_shuffle'] = rng.random() < 0.4
+                case['bvalue'] = rng.choice(['scalar', 'scalar', 'array', 'frame', 'frame', 'frame', 'series'])
+                case['vseed'] = rng.randrange(1 << 30)
             elif iface == 'astype':
                 if spec.col_kind.startswith('hier') or not nc:
                     continue
@@ -528,31 +535,90 @@ def _check_frame_assign(case, ctx, f, before, R, C, rres, cres, key, klass):
 
 
 def _check_assign_bloc(case, ctx, f, before, klass):
+    import random
     import static_frame as sf
     spec, lay, mask, v = case['spec'], case['layout'], case['mask'], case['v']
     nr, nc = spec.shape
     if spec.row_kind.startswith('hier') or spec.col_kind.startswith('hier') or not nr or not nc:
         return
+    bvalue = case.get('bvalue', 'scalar')
+    klass['bvalue'] = bvalue
+    ctx.tally('assign_bloc_value', bvalue)
+    rng = random.Random(case.get('vseed', 0))
     m = sf.Frame(np.array(mask, dtype=bool).reshape(nr, nc), index=f.index, columns=f.columns)
     if case['mask_shuffle'] and nr > 1:
         m = m.iloc[::-1]
-    out, exc = _call(lambda: f.assign.bloc[m](v))
+    model = _frame_model(spec)
+    exp = {}  # (r, c) -> canonical expected for addressed cells (None = may keep the original)
+    dt = rng.choice(_VAL_DTYPES)
+    if bvalue == 'scalar':
+        value = v
+        for r in range(nr):
+            for c in range(nc):
+                if mask[r][c]:
+                    exp[(r, c)] = cs(v)
+    elif bvalue == 'array':
+        grid = [[_val(rng, dt) for _ in range(nc)] for _ in range(nr)]
+        value = np.empty((nr, nc), dtype=object if dt == 'object' else dt)
+        for r in range(nr):
+            for c in range(nc):
+                value[r, c] = grid[r][c]
+                if mask[r][c]:
+                    exp[(r, c)] = cs(grid[r][c])
+    elif bvalue == 'frame':
+        rows = [r for r in range(nr) if rng.random() < 0.85] or [0]
+        cols = [c for c in range(nc) if rng.random() < 0.85] or [0]
+        rng.shuffle(rows)
+        rng.shuffle(cols)
+        dts = [rng.choice(_VAL_DTYPES) for _ in cols]
+        grid = {(r, c): _val(rng, dts[j]) for r in rows for j, c in enumerate(cols)}
+        vspec = F.FrameSpec([spec.rows[r] for r in rows], [spec.cols[c] for c in cols], spec.row_kind if spec.row_kind != 'auto' else 'int',
+                            spec.col_kind if spec.col_kind != 'auto' else 'int', dts, [[grid[(r, c)] for c in cols] for r in rows], None)
+        vlay = rng.choice(F.layouts(dts))
+        try:
+            value = F.build_frame(vspec, vlay)
+        except Exception:
+            return
+        klass['value_layout_blocks'] = len(vlay)
+        for r in range(nr):
+            for c in range(nc):
+                if mask[r][c]:
+                    exp[(r, c)] = cs(grid[(r, c)]) if (r, c) in grid else ('keep',)
+    else:
+        items = [((spec.rows[r], spec.cols[c]), _val(rng, dt)) for r in range(nr) for c in range(nc) if mask[r][c]]
+        if not items:
+            return
+        rng.shuffle(items)
+        idx = np.empty(len(items), dtype=object)
+        for i, (lab, _) in enumerate(items):
+            idx[i] = lab
+        value = sf.Series(V.to_array([x for _, x in items], dt), index=sf.Index(idx))
+        pos_r = {cs(x): i for i, x in enumerate(spec.rows)}
+        pos_c = {cs(x): i for i, x in enumerate(spec.cols)}
+        for (rl, cl), x in items:
+            exp[(pos_r[cs(rl)], pos_c[cs(cl)])] = cs(x)
+    out, exc = _call(lambda: f.assign.bloc[m](value))
     _assert_receiver(ctx, before, f, klass)
     if exc is not None:
         ctx.violation('valid_update_raised', detail={'exception': type(exc).__name__, 'message': str(exc)[:300]}, klass=dict(klass, exception=type(exc).__name__))
         return
-    model = _frame_model(spec)
     got = canon.snap(out)
-    if got['index']['labels'] != before['index']['labels'] or got['columns']['labels'] != before['columns']['labels'] or got['name'] != before['name']:
+    if got['index']['labels'] != before['index']['labels'] or got['columns']['labels'] != before['columns']['labels'] or got['name'] != before['name'] \
+            or got['shape'] != (nr, nc):
         ctx.violation('update_mismatch:labels_or_shape', detail={'got': canon.brief(got, 600)}, klass=klass)
         return
     addressed = {c for c in range(nc) if any(mask[r][c] for r in range(nr))}
     for c in range(nc):
         for r in range(nr):
-            e = cs(v) if mask[r][c] else model[r][c]
-            if not _cell_eq(got['cols'][c][r], e):
-                ctx.violation('update_mismatch:' + ('addressed_cell' if mask[r][c] else 'unaddressed_cell'),
-                              detail={'cell': (r, c), 'expected': e, 'got': got['cols'][c][r]}, klass=klass)
+            e = exp.get((r, c))
+            g = got['cols'][c][r]
+            if e is None or e == ('keep',):
+                if not _cell_eq(g, model[r][c]):
+                    ctx.violation('update_mismatch:' + ('unaddressed_cell' if e is None else 'uncovered_cell'),
+                                  detail={'cell': (r, c), 'expected': model[r][c], 'got': g}, klass=klass)
+                    return
+            elif not _cell_eq(g, e):
+                ctx.violation('update_mismatch:addressed_cell', detail={'cell': (r, c), 'expected': e, 'got': g}, klass=klass)
                 return
         if c not in addressed and got['dtypes'][c] != str(spec.col_array(c).dtype):
             ctx.violation('update_mismatch:unaddressed_dtype', detail={'column': c, 'got_dtype': got['dtypes'][c]},
